@@ -40,10 +40,36 @@ impl std::fmt::Debug for CountDbg {
         write!(f, "CountDbg({})", self.0)
     }
 }
-#[unimock(api=DbgMock)]
+#[unimock(api=DbgMock, unmock_with=[_, _, real_dbg_u, _])]
 trait DbgT {
     fn dbg_m2(&self, p0: CountDbg, p1: &mut u32) -> u32;
     async fn dbg_a1(&self, p0: CountDbg) -> u32;
+    fn dbg_u(&self, p0: CountDbg) -> u32;
+    fn dbg_d(&self, p0: CountDbg) -> u32 { see(format!("dflt({})", p0.0)); p0.0 + 3 }
+}
+fn real_dbg_u(_: &impl DbgT, p0: CountDbg) -> u32 { see(format!("real({})", p0.0)); p0.0 + 2 }
+
+/// a trait whose mock API is hidden (plain `#[unimock]`): its provided methods still run their own bodies over the same mock
+#[unimock]
+trait HidT: RefT {
+    fn h_version(&self) -> u32 { 3 }
+    fn h_twice(&self, p0: u32) -> u32 { see(format!("twice({p0})")); self.r_req(p0, 1) + self.r_req(p0, 2) }
+}
+
+/// associated constants configured in the attribute: a default body reads the mock's value, not the trait's default
+#[unimock(api=KMock, const MAX: u32 = 100; const NAME: &'static str = "mocked";)]
+trait KT {
+    const MAX: u32 = 1;
+    const NAME: &'static str;
+    fn k_raw(&self, p0: u32, p1: u32) -> u32;
+    fn k_clamp(&self, p0: u32) -> u32 { see(format!("clamp({p0},{})", Self::MAX)); self.k_raw(p0, Self::MAX) }
+    fn k_clamp_mut(&mut self, p0: u32) -> u32 { self.k_raw(p0, Self::MAX) + Self::NAME.len() as u32 }
+}
+
+/// a `&mut` parameter whose pointee is the method's own type parameter
+#[unimock(api=GmMock)]
+trait GmT {
+    fn gm_push<B: Extend<u8> + AsRef<[u8]> + 'static>(&self, p0: u8, p1: &mut B, p2: usize) -> usize;
 }
 
 #[unimock(api=LtMock)]
@@ -189,6 +215,44 @@ fn main() {
         let s = seen();
         let n = DBG_RENDERINGS.load(std::sync::atomic::Ordering::SeqCst) - before;
         check("async.a1.debug-not-rendered", r == 67 && n == 0 && s == ["match(66)", "ans(66)"], format!("ret={r} renderings={n} seen={s:?}"));
+    });
+    // no clause mentions the method: the default body / the registered function run, and the arguments' `Debug` stays out of it
+    run_case("ref.default.unmentioned.debug-not-rendered", || {
+        let u = Unimock::new(());
+        let before = DBG_RENDERINGS.load(std::sync::atomic::Ordering::SeqCst);
+        let r = u.dbg_d(CountDbg(66));
+        let s = seen();
+        let n = DBG_RENDERINGS.load(std::sync::atomic::Ordering::SeqCst) - before;
+        check("ref.default.unmentioned.debug-not-rendered", r == 69 && n == 0 && s == ["dflt(66)"], format!("ret={r} renderings={n} seen={s:?}"));
+    });
+    run_case("ref.unmock.fallthrough.debug-not-rendered", || {
+        let u = Unimock::new_partial(());
+        let before = DBG_RENDERINGS.load(std::sync::atomic::Ordering::SeqCst);
+        let r = u.dbg_u(CountDbg(66));
+        let s = seen();
+        let n = DBG_RENDERINGS.load(std::sync::atomic::Ordering::SeqCst) - before;
+        check("ref.unmock.fallthrough.debug-not-rendered", r == 68 && n == 0 && s == ["real(66)"], format!("ret={r} renderings={n} seen={s:?}"));
+    });
+    run_case("ref.default.hidden-api", || {
+        let u = Unimock::new(RefMock::r_req.each_call(matching!(_, _)).answers(&|_, a, b| { see(format!("req({a},{b})")); a * 10 + b }));
+        let r = (u.h_version(), u.h_twice(4));
+        let s = seen();
+        check("ref.default.hidden-api", r == (3, 83) && s == ["twice(4)", "req(4,1)", "req(4,2)"], format!("ret={r:?} seen={s:?}"));
+    });
+    run_case("ref.default.assoc-const", || {
+        let mut u = Unimock::new(KMock::k_raw.each_call(matching!(_, 100)).answers(&|_, a, b| a.min(b)));
+        let r = (<Unimock as KT>::MAX, u.k_clamp(500), u.k_clamp(7), u.k_clamp_mut(500));
+        let s = seen();
+        check("ref.default.assoc-const", r == (100, 100, 7, 106) && s == ["clamp(500,100)", "clamp(7,100)"], format!("ret={r:?} seen={s:?}"));
+    });
+    run_case("ref.m3.generic-mut-pointee", || {
+        let u = Unimock::new(GmMock::gm_push.with_types::<Vec<u8>>().each_call(&|m| m.func(|(a, b, c), _| { see(format!("match({a},{:?},{c})", b.as_slice())); b.is_empty() })).answers(&|_, a, b, c| { b.push(a); b.len() + c })).no_verify_in_drop();
+        let mut v: Vec<u8> = vec![];
+        let r = u.gm_push(7, &mut v, 10);
+        let s = seen();
+        let again = std::panic::catch_unwind(std::panic::AssertUnwindSafe(|| u.gm_push(8, &mut v, 10))).is_err();   // the matcher sees the now non-empty buffer and rejects
+        let _ = seen();
+        check("ref.m3.generic-mut-pointee", r == 11 && v == [7] && again && s == ["match(7,[],10)"], format!("ret={r} v={v:?} rejected={again} seen={s:?}"));
     });
     run_case("ref.unmock.path", || {
         let u = Unimock::new((RefMock::r_m2.each_call(matching!(_, _)).applies_unmocked(), RefMock::r_req.each_call(matching!(_, _)).answers(&|_, a, b| { see(format!("req({a},{b})")); a + b })));
